@@ -146,6 +146,11 @@ def shard(rec, tier, index, n_shards):
             continue
         rec.count("lattice_cases")
         do(case)
+    for case in engine.wide_cases(rng, 8 if tier == "quick" else 300):
+        if "s" not in case.formats[case.target[1]]:
+            continue
+        rec.count("wide_cases")
+        do(case)
     for case in engine.high_order_cases(rng, 6 if tier == "quick" else 400):
         if "s" not in case.formats[case.target[1]]:
             continue
